@@ -52,6 +52,17 @@ ObsCoinIds(o) == \A i \in DOMAIN o.spends :
                                                /\ \A k \in DOMAIN s.cc : s.cc_ids[k] = SHA256(s.id \o s.cc[k].ph \o Enc(s.cc[k].amt))
 ObsAccepted(o) == ObsConservation(o) /\ ObsNoDoubleSpend(o) /\ ObsNoDupOutput(o) /\ ObsTotals(o) /\ ObsCoinIds(o)
 
+(* ---- C02: the fee the conditions themselves reserve (independent of what the result reports) ---- *)
+\* every RESERVE_FEE condition whose argument is a non-negative integer atom counts, whatever its width
+FeeArg(c) == IF IsPair(c) /\ IsAtom(c.l) /\ c.l.a = <<RESERVE_FEE>> /\ IsPair(c.r) /\ IsAtom(c.r.l) /\ (c.r.l.a = <<>> \/ c.r.l.a[1] < 128)
+             THEN Norm(c.r.l.a) ELSE Zero
+DeclaredFeeOfConds(conds) == LET cs == Elems(conds) IN SumSeq([i \in DOMAIN cs |-> FeeArg(cs[i])])
+\* conditions of a spend given as (parent puzzle-hash amount conditions ...); a malformed spend reserves nothing
+SpendCondsOf(sp) == IF IsPair(sp) /\ IsPair(sp.r) /\ IsPair(sp.r.r) /\ IsPair(sp.r.r.r) THEN sp.r.r.r.l ELSE Nil
+DeclaredFeeOfTree(tree) == IF IsPair(tree) THEN LET ss == Elems(tree.l) IN SumSeq([i \in DOMAIN ss |-> DeclaredFeeOfConds(SpendCondsOf(ss[i]))]) ELSE Zero
+\* an accepted result conserves value also with the fee its conditions declare, and reports exactly that fee
+ObsDeclaredFee(o, declared) == Le(Add(o.add, declared), o.rem) /\ o.fee = declared
+
 (* ---- C04: accumulator consistency on the reported numbers ---- *)
 ObsCostConsistent(o) == o.ccost = SumSeqBy(o.spends, SpendCcost)
 =============================================================================
